@@ -301,7 +301,9 @@ class Interp:
         if isinstance(v, ast.Call):
             txt = ast.unparse(v.func)
             if txt.startswith("LOG.") or txt in ("warn", "warnings.warn"):
-                return  # DESIGN 2.2: logging and warnings are no-ops
+                if txt.startswith("LOG.") and not txt.endswith("isEnabledFor"):
+                    self._eval_dropped_args(v, frame)
+                return  # DESIGN 2.2: logging and warnings are no-ops (their arguments are still evaluated)
         self.eval(v, frame)
 
     def x_Pass(self, st, frame):
@@ -844,6 +846,10 @@ class Interp:
         if isinstance(e.func, ast.Attribute) and isinstance(e.func.value, ast.Name) and e.func.value.id == "LOG":
             if e.func.attr == "isEnabledFor":
                 return False
+            # the logging CALL is dropped (DESIGN 2.2) but Python evaluates its arguments before the call, whatever the
+            # level: their side effects and exceptions are part of the function (`LOG.debug("%s", message.pretty())`).
+            # An argument the engine cannot evaluate is skipped (what it would do stays unknown, as before).
+            self._eval_dropped_args(e, frame)
             return None
         if isinstance(e.func, ast.Name) and e.func.id == "cast" and len(e.args) == 2:
             return self.eval(e.args[1], frame)
@@ -905,6 +911,15 @@ class Interp:
         except Interp._Stop:
             pass
         return box["r"]
+
+    def _eval_dropped_args(self, call, frame):
+        for a in list(call.args) + [k.value for k in call.keywords]:
+            if isinstance(a, (ast.Constant, ast.Name)):
+                continue
+            try:
+                self.eval(a.value if isinstance(a, ast.Starred) else a, frame)
+            except Undecided:
+                pass
 
     def _comp(self, generators, frame, emit):
         def rec(i, fr):
